@@ -406,6 +406,17 @@ fn dir_entries(p: &std::path::Path) -> Vec<String> {
 /// `SpillManager` removes every spill file on `cleanup()` and on drop.
 /// Returns (rows, number of spill files that existed right after execution).
 pub fn run_push(rows: &[Row], plan: &Plan, cfg: &Cfg, spill: bool) -> Result<(Vec<Row>, usize), Failure> {
+    // The spillable sort keeps every run file open until the merge is done and starts a run whenever more
+    // than `threshold` rows are buffered: a threshold of 0 on a 20 000-row table means 20 000 open files in one
+    // case (16 cases run at once). The budget is therefore bounded below so that a case has at most ~200 runs
+    // per operator: "every push spills" on small tables, a few hundred runs on the large ones.
+    let clamped;
+    let cfg = if spill && (cfg.spill_threshold as usize) < rows.len() / 200 {
+        clamped = Cfg { spill_threshold: (rows.len() / 200) as u32, ..cfg.clone() };
+        &clamped
+    } else {
+        cfg
+    };
     let scratch = if spill { Some(scratch_dir()) } else { None };
     let spill_dir = scratch.as_ref().map(|s| s.path().join("spill"));
     let res = guard("push pipeline", || -> Result<(Vec<Row>, usize, Vec<String>), OpErr> {
@@ -448,6 +459,8 @@ pub fn run_push(rows: &[Row], plan: &Plan, cfg: &Cfg, spill: bool) -> Result<(Ve
         Ok((chunks_rows(&chunks), files_during, left))
     })?;
     match res {
+        // EMFILE / ENFILE: the process ran into the machine's descriptor limit
+        Err(e) if spill && (e.to_string().contains("os error 24") || e.to_string().contains("os error 23")) => fail("infra/fd-limit", format!("push pipeline with spilling: {e}")),
         Err(e) => fail(if spill { "c17/spill/error" } else { "c17/push/error" }, format!("push pipeline returned an error: {e}")),
         Ok((rows, files, left)) => {
             if !left.is_empty() {
